@@ -69,6 +69,24 @@ func cfgOf(fs []xmpp.StreamFeature) func(*xmpp.Session, *xmpp.StreamConfig) xmpp
 	}
 }
 
+// teeSink stands for an XML console: it takes whatever the session copies to it.
+type teeSink struct{ n int }
+
+func (t *teeSink) Write(p []byte) (int, error) { t.n += len(p); return len(p), nil }
+
+// cfgTee is cfgOf with, if tee is set, a copy of both directions going to an
+// application's writers (StreamConfig.TeeIn / TeeOut): the session then reads
+// and writes through the library's own wrapper around the transport.
+func cfgTee(fs []xmpp.StreamFeature, tee bool) func(*xmpp.Session, *xmpp.StreamConfig) xmpp.StreamConfig {
+	if !tee {
+		return cfgOf(fs)
+	}
+	in, out := &teeSink{}, &teeSink{}
+	return func(*xmpp.Session, *xmpp.StreamConfig) xmpp.StreamConfig {
+		return xmpp.StreamConfig{Features: fs, TeeIn: in, TeeOut: out}
+	}
+}
+
 func plainAuth() string {
 	return base64.StdEncoding.EncodeToString([]byte("\x00me\x00pw"))
 }
@@ -113,7 +131,7 @@ func featV(refuse bool) xmpp.StreamFeature {
 	return hspeer.Custom(hspeer.CustomCfg{NS: nsV, Local: "v", Req: false, OKMask: 0, Refuse: refuse, FailMask: xmpp.Authn})
 }
 
-func saslBindInit(ws bool) func() *attempt {
+func saslBindInit(ws bool, tee ...bool) func() *attempt {
 	return func() *attempt {
 		a := &attempt{}
 		a.peer = hspeer.NewPeer(
@@ -128,15 +146,15 @@ func saslBindInit(ws bool) func() *attempt {
 		a.call = func(ctx context.Context, conn io.ReadWriter, log *hspeer.Log) (*xmpp.Session, error) {
 			fs := hspeer.InstrumentAll(log, xmpp.SASL("", "pw", sasl.Plain), xmpp.BindResource())
 			if ws {
-				return xmpp.NewSession(ctx, serverJID, clientJID, conn, xmpp.Secure, websocket.Negotiator(cfgOf(fs)))
+				return xmpp.NewSession(ctx, serverJID, clientJID, conn, xmpp.Secure, websocket.Negotiator(cfgTee(fs, len(tee) > 0 && tee[0])))
 			}
-			return xmpp.NewSession(ctx, serverJID, clientJID, conn, xmpp.Secure, xmpp.NewNegotiator(cfgOf(fs)))
+			return xmpp.NewSession(ctx, serverJID, clientJID, conn, xmpp.Secure, xmpp.NewNegotiator(cfgTee(fs, len(tee) > 0 && tee[0])))
 		}
 		return a
 	}
 }
 
-func saslBindRecv(ws bool) func() *attempt {
+func saslBindRecv(ws bool, tee ...bool) func() *attempt {
 	return func() *attempt {
 		a := &attempt{}
 		a.peer = hspeer.NewPeer(
@@ -148,9 +166,9 @@ func saslBindRecv(ws bool) func() *attempt {
 		a.call = func(ctx context.Context, conn io.ReadWriter, log *hspeer.Log) (*xmpp.Session, error) {
 			fs := hspeer.InstrumentAll(log, xmpp.SASLServer(perm, sasl.Plain), xmpp.BindResource())
 			if ws {
-				return xmpp.ReceiveSession(ctx, conn, xmpp.Secure, websocket.Negotiator(cfgOf(fs)))
+				return xmpp.ReceiveSession(ctx, conn, xmpp.Secure, websocket.Negotiator(cfgTee(fs, len(tee) > 0 && tee[0])))
 			}
-			return xmpp.ReceiveSession(ctx, conn, xmpp.Secure, xmpp.NewNegotiator(cfgOf(fs)))
+			return xmpp.ReceiveSession(ctx, conn, xmpp.Secure, xmpp.NewNegotiator(cfgTee(fs, len(tee) > 0 && tee[0])))
 		}
 		return a
 	}
@@ -207,6 +225,8 @@ func scripted() []*handshake {
 		}},
 		{Name: "ws-saslbind-init", Role: "init", Expect: "ok", New: saslBindInit(true)},
 		{Name: "ws-saslbind-recv", Role: "recv", Expect: "ok", New: saslBindRecv(true)},
+		{Name: "tee-saslbind-init", Role: "init", Expect: "ok", New: saslBindInit(false, true)},
+		{Name: "tee-saslbind-recv", Role: "recv", Expect: "ok", New: saslBindRecv(false, true)},
 		{Name: "component-init", Role: "init", Expect: "ok", New: func() *attempt {
 			a := &attempt{}
 			a.peer = hspeer.NewPeer(
